@@ -69,8 +69,8 @@ def run(ctx):
                           "by scenarios in which a receiving peer stops reading while changes of the same destinations queue up for it (model and oracle see no difference)",
                           "the oracle takes the best path from the implementation's Loc-RIB listing (best-path selection itself is C03)"],
                          fields=("view", "best"), addpath=0.5,
-                         extra_cases=lambda ctx: [simlib.gen_ap_churn(ctx.rng) for _ in range(ctx.scale(2500, 60000))] +
-                                                 [simlib.gen_coalesce(ctx.rng) for _ in range(ctx.scale(800, 20000))])
+                         extra_cases=lambda ctx: [simlib.gen_ap_churn(ctx.rng) for _ in range(ctx.scale(2500, 25000))] +
+                                                 [simlib.gen_coalesce(ctx.rng) for _ in range(ctx.scale(800, 8000))])
 
 
 def replay(ctx, path):
